@@ -14,6 +14,9 @@ Line-protocol driver for C03 (see `harness/corr/c03.go` and `extra/C03.py`).
   agg subkey <hist>                   … of bars
   parse <text>                        `parseCsv`
   exit <readErrors> <aggNil> <parseErrors> <matched>
+  tbl <delim> <ncols> <samples> <renders>
+                                      the table aggregator driven through samples and the trim step of spark's render
+                                      callback (a render after every sample count in <renders>), final render, CSV
   reduce <flags> <initial> <sort> <groups> <accums> <nomatch> <elements>
                                       `rare reduce` end to end (`Rare.C03.reduceRun`): set-up, sampling, final render
                                       (as text with runs of spaces squashed), `--csv` text, exit status
@@ -150,7 +153,22 @@ def analyzeOp (flags : Nat) (qs : List Bytes) (nMiss : Nat) (samples : List Byte
     | .error _ => "panic"
     | .ok r => s!"ok {r.exit} {Hex.enc (joinLines r.lines)}"
 
+/-! ### `tbl`: the table aggregator under the render callback of `spark` -/
+
+def natList? (s : String) : Option (List Nat) :=
+  if s = "." then some [] else (s.splitOn ",").mapM nat?
+
+def tblOp (d : Bytes) (ncols : Nat) (samples : List Bytes) (renders : List Nat) : String :=
+  let t := sparkTrim ncols (sparkRun ncols d (sparkScript 0 samples renders))
+  let csv := writeCsv (tableCsvRows isortFn (akeys t.cols) (akeys t.rows) t)
+  let mm := t.computeMinMax
+  s!"ok {Hex.enc csv} {t.rows.length} {t.cols.length} {t.sum} {mm.1} {mm.2} {t.errors}"
+
 def handle : List String → String
+  | ["tbl", d, n, ss, rs] =>
+    match Hex.dec d, nat? n, decHexList ss, natList? rs with
+    | some d, some n, some ss, some rs => if d.isEmpty then "unmodelled empty-delimiter" else tblOp d n ss rs
+    | _, _, _, _ => "bad-args"
   | ["analyze", fl, qs, nm, els] =>
     match nat? fl, decHexList qs, nat? nm, decHexList els with
     | some fl, some qs, some nm, some els => analyzeOp fl qs nm els
